@@ -256,6 +256,9 @@ def check_div(ctx):
         conds = None
         for x in walk_own(f.node):
             if isinstance(x, ast.BinOp) and isinstance(x.op, (ast.Div, ast.FloorDiv, ast.Mod)):
+                if isinstance(x.op, ast.Mod) and (isinstance(x.left, (ast.Constant, ast.JoinedStr)) and not isinstance(getattr(x.left, 'value', None), (int, float))
+                                                  or isinstance(x.right, ast.Tuple)):
+                    continue          # '%s (%s%%)' % (..): string formatting, not a remainder
                 den = x.right
                 st = view.stmt_of(x)
                 dx = view.expand(den, st)
